@@ -12,7 +12,8 @@
 (* registers under the lock again (PeerOpenCommit) - or rejects (PeerOpenReject).  *)
 (* Local opens can therefore run between a peer open's allocation and its          *)
 (* registration.  A channel leaves the map when the peer's CLOSE arrives or its     *)
-(* open fails (Close).  Peer messages that name an id out of turn (OPEN_FAILURE /    *)
+(* open fails (Close).  A local open may also wait for its answer (await) and time   *)
+(* out while a peer open sits between allocation and registration.  Peer messages that name an id out of turn (OPEN_FAILURE /    *)
 (* OPEN_CONFIRMATION for an established channel, duplicate CLOSE) are history events  *)
 (* too: they must not take a live channel out of the registry, or wrap-around hands   *)
 (* its id out again.                                                                   *)
@@ -28,6 +29,8 @@ CONSTANTS N,          \* size of the id space (2^24 in paramiko)
                       \* check_channel_request callback (assumption, see PendingFresh)
           Wrap,       \* TRUE: counter = (counter + 1) & mask (the code); FALSE: mutation, no wrap
           SkipInUse,  \* TRUE: ids present in the map are skipped (the code); FALSE: mutation
+          TimeoutRewindsCounter,   \* FALSE (the code): a local open that times out leaves counter and registry
+                      \* alone; TRUE: mutation, it unregisters its id and sets the counter back to it
           StrayFailureUnregisters  \* FALSE (the code): CHANNEL_OPEN_FAILURE only affects a local open that is
                       \* still waiting for its answer; TRUE: mutation, it unregisters whatever id it names
 
@@ -35,8 +38,9 @@ VARIABLES counter,    \* Transport._channel_counter
           open,       \* sparse bag: id -> number of open Channel objects with that id
           map,        \* ids present in Transport._channels (ChannelMap)
           pend,       \* sparse function: thread -> id it has allocated but not yet registered
-          inwin       \* allocations since the pending peer open allocated its id
-vars == <<counter, open, map, pend, inwin>>
+          inwin,      \* allocations since the pending peer open allocated its id
+          await       \* ids of local opens whose CHANNEL_OPEN is out and not answered yet (open_channel is waiting)
+vars == <<counter, open, map, pend, inwin, await>>
 
 Ids == 0..(N - 1)
 Succ(c) == IF Wrap THEN (c + 1) % N ELSE c + 1
@@ -68,52 +72,85 @@ Unregister(id) == /\ open' = Dec(open, id)
                   /\ map' = map \ {id}
 
 Init == /\ counter \in Ids
-        /\ open = <<>> /\ map = {} /\ pend = <<>> /\ inwin = 0
+        /\ open = <<>> /\ map = {} /\ pend = <<>> /\ inwin = 0 /\ await = {}
 
 LocalOpen ==
-  /\ Size(open) + Cardinality(DOMAIN pend) < MaxLive
+  /\ Cardinality(map) + Cardinality(DOMAIN pend) < MaxLive
   /\ ("T" \in DOMAIN pend => inwin < WindowCap)
   /\ LET id == NextFree(counter, map) IN
        /\ counter' = Succ(id)
        /\ open' = Inc(open, id) /\ map' = map \cup {id}
   /\ inwin' = IF "T" \in DOMAIN pend THEN inwin + 1 ELSE inwin
-  /\ UNCHANGED pend
+  /\ UNCHANGED <<pend, await>>
 
 PeerOpenBegin ==
   /\ "T" \notin DOMAIN pend
-  /\ Size(open) < MaxLive
+  /\ Cardinality(map) < MaxLive
   /\ AllocBy("T", NextFree(counter, map))
   /\ inwin' = 0
-  /\ UNCHANGED <<open, map>>
+  /\ UNCHANGED <<open, map, await>>
 
 PeerOpenCommit ==
   /\ "T" \in DOMAIN pend
   /\ RegisterBy("T", pend["T"])
-  /\ UNCHANGED <<counter, inwin>>
+  /\ UNCHANGED <<counter, inwin, await>>
 
 PeerOpenReject ==
   /\ "T" \in DOMAIN pend
   /\ pend' = Without(pend, "T")
-  /\ UNCHANGED <<counter, open, map, inwin>>
+  /\ UNCHANGED <<counter, open, map, inwin, await>>
 
 Close(id) ==
-  /\ id \in DOMAIN open
+  /\ id \in DOMAIN open /\ id \notin await
+  /\ Unregister(id)
+  /\ UNCHANGED <<counter, pend, inwin, await>>
+
+\* ---- a local open whose answer takes time: open_channel allocates and registers under the lock, sends
+\* CHANNEL_OPEN and waits (at most two application threads wait at a time).  The peer confirms, refuses, or
+\* the wait times out: open_channel raises, the application has no channel; the code leaves the registry entry
+\* behind (ChannelMap holds the abandoned Channel weakly: Collect) and does not touch the counter.
+LocalOpenSend ==
+  /\ Cardinality(map) + Cardinality(DOMAIN pend) < MaxLive /\ Cardinality(await) < 2
+  /\ ("T" \in DOMAIN pend => inwin < WindowCap)
+  /\ LET id == NextFree(counter, map) IN
+       /\ counter' = Succ(id)
+       /\ open' = Inc(open, id) /\ map' = map \cup {id}
+       /\ await' = await \cup {id}
+  /\ inwin' = IF "T" \in DOMAIN pend THEN inwin + 1 ELSE inwin
+  /\ UNCHANGED pend
+OpenAccepted(id) ==
+  /\ id \in await /\ await' = await \ {id}
+  /\ UNCHANGED <<counter, open, map, pend, inwin>>
+OpenRefused(id) ==
+  /\ id \in await /\ await' = await \ {id}
   /\ Unregister(id)
   /\ UNCHANGED <<counter, pend, inwin>>
+OpenTimeout(id) ==
+  /\ id \in await /\ await' = await \ {id}
+  /\ open' = Dec(open, id)
+  /\ map' = IF TimeoutRewindsCounter THEN map \ {id} ELSE map
+  /\ counter' = IF TimeoutRewindsCounter THEN id ELSE counter
+  /\ UNCHANGED <<pend, inwin>>
+Collect(id) ==
+  /\ id \in map /\ id \notin DOMAIN open
+  /\ map' = map \ {id}
+  /\ UNCHANGED <<counter, open, pend, inwin, await>>
 
 \* ---- peer messages that name an id they have no business with (a buggy or hostile peer).  In this model a
-\* local open is answered within LocalOpen, so every channel in `open` is established: CHANNEL_OPEN_FAILURE or
+\* local open is answered within LocalOpen or listed in `await`; the others in `open` are established: CHANNEL_OPEN_FAILURE or
 \* CHANNEL_OPEN_CONFIRMATION for an established, a half-registered (pend) or an unknown id, and CHANNEL_CLOSE for
 \* an id that has no channel (duplicate CLOSE), must leave the registry alone.  The Channel object of an
 \* established channel stays open, so `open` never changes here.
 StrayOpenFailure(id) ==
+  /\ id \notin await
   /\ map' = IF StrayFailureUnregisters THEN map \ {id} ELSE map
-  /\ UNCHANGED <<counter, open, pend, inwin>>
+  /\ UNCHANGED <<counter, open, pend, inwin, await>>
 StrayOpenSuccess(id) == UNCHANGED vars
 DuplicateClose(id) == id \notin DOMAIN open /\ UNCHANGED vars
 Stray == \E id \in Ids : StrayOpenFailure(id) \/ StrayOpenSuccess(id) \/ DuplicateClose(id)
 
-Next == LocalOpen \/ PeerOpenBegin \/ PeerOpenCommit \/ PeerOpenReject \/ (\E id \in DOMAIN open : Close(id)) \/ Stray
+Next == LocalOpen \/ LocalOpenSend \/ (\E id \in await : OpenAccepted(id) \/ OpenRefused(id) \/ OpenTimeout(id))
+        \/ (\E id \in map : Collect(id)) \/ PeerOpenBegin \/ PeerOpenCommit \/ PeerOpenReject \/ (\E id \in DOMAIN open : Close(id)) \/ Stray
 Spec == Init /\ [][Next]_vars
 
 (* ------------------------------------------------------------------ the property *)
